@@ -607,6 +607,31 @@ func buildEvidence(pl *plan, tier string, seed uint64, outs []runOut, nviol int,
 	cov["episodes_planned"] = len(pl.scenarios)
 	cov["truncated_by_budget"] = truncated
 	cov["runs_per_hour"] = int(float64(len(outs)) / hours)
+	{
+		// the slowest episodes (wall clock, incl. process start): the margin to the watchdog
+		type slow struct {
+			s    float64
+			note string
+		}
+		var top []slow
+		for i := range outs {
+			o := &outs[i]
+			w := o.wall.Seconds()
+			note := o.sc.Note
+			if len(o.sc.Groups) > 0 && len(o.sc.Groups[0]) > 0 {
+				j := o.sc.Groups[0][0]
+				note = fmt.Sprintf("%s %s/%s/%d/%s", note, j.Kind, j.Model, j.Cells, j.Sink)
+			}
+			top = append(top, slow{w, note})
+		}
+		sort.Slice(top, func(a, b int) bool { return top[a].s > top[b].s })
+		var lines []string
+		for i := 0; i < len(top) && i < 5; i++ {
+			lines = append(lines, fmt.Sprintf("%.1fs %s", top[i].s, top[i].note))
+		}
+		cov["slowest_episodes"] = lines
+		cov["episode_wall_limit_s"] = episodeWallLimit().Seconds()
+	}
 	cov["simulated_time_steps"] = steps
 	cov["steps_with_choice"] = choiceSteps
 	cov["stall_steps_enforced"] = stall
